@@ -40,6 +40,10 @@ class Spec:
             if h is t.NoReturn or h is t.Never: return ('never',)
             if isinstance(h, type):
                 ob = getattr(h, '__orig_bases__', None)
+                if ob and h.__module__ not in ('builtins', 'collections', 'collections.abc', 'typing', 'enum', 'abc'):
+                    # a bare user class whose bases are subscripted generics (class IntItems(Items[int])): an instance also satisfies each of them
+                    bases = [b for b in ob if t.get_origin(b) is not None and t.get_origin(b) not in (t.Generic, t.Protocol) and not getattr(b, '__parameters__', ())]
+                    if bases: return ('generic', h, tuple(bases))
                 return ('cls', h)
             raise NotImplementedError(f'spec: unsupported hint {h!r}')
         if isinstance(o, getattr(t, 'TypeAliasType', ())):                                       # subscripted PEP 695 alias: parameters substituted
